@@ -35,6 +35,7 @@ OwnPfx(r) == CASE r \in {"a", "as"} -> "a" [] OTHER -> "b"
 Imported(r, p) == IF r \in {"a", "as"} /\ p = "b" THEN "b" ELSE ""
 SiteHome(x) == CASE x = "ltop" -> "A0" [] x = "lc" -> "C1" [] x = "ld" -> "D2" [] x = "ll" -> "L1" [] x = "lg" -> "G1"
                  [] x = "li" -> "I2" [] x = "lo" -> "O2" [] x = "ln" -> "N1" [] x = "ls" -> "S0"
+                 [] x = "la" -> "A0"      \* in the input of an action inside a grouping nobody uses (no typedefs of their own on the way up)
 
 RECURSIVE Up(_)
 Up(s) == IF s = "" THEN <<>> ELSE <<s>> \o Up(SlotParent(s))
